@@ -113,6 +113,7 @@ pub struct World<'p> {
     pub blobs: BTreeMap<usize, BlobRec>,
     pub stored: BTreeMap<String, Vec<usize>>,
     pub ids: BTreeMap<usize, String>,
+    pub id_bytes: BTreeMap<Vec<u8>, (Kind, Vec<u8>)>,
     pub results: BTreeMap<usize, String>,
     pub log: LogHash,
     pub violations: Vec<Violation>,
@@ -227,6 +228,7 @@ impl<'p> World<'p> {
             blobs: BTreeMap::new(),
             stored: BTreeMap::new(),
             ids: BTreeMap::new(),
+            id_bytes: BTreeMap::new(),
             results: BTreeMap::new(),
             log: LogHash::default(),
             violations: Vec::new(),
@@ -450,6 +452,19 @@ impl<'p> World<'p> {
                 self.ref_wrap(*blob, *family, *wk, *key, with, params, entropy)
             }
             Step::Id { node, slot } => self.id(*node, *slot),
+            Step::IdRel { reader, a, b } => crate::textcheck::id_rel(self, *reader, a, b),
+            Step::TokInject { tok, family, purpose, text } => {
+                // on the wire but never issued: the ideal table does not know it
+                self.toks.insert(
+                    *tok,
+                    TokRec { text: text.clone(), family: *family, purpose: *purpose, unseal_key_raw: vec![], claims: Claims::Raw(vec![]), footer: Foot::Unit, footer_bytes: vec![], aad: vec![], by_reference: false },
+                );
+                self.stats.bump("fault:byzantine-token");
+            }
+            Step::BlobInject { blob, family, wk, kind, text } => {
+                self.blobs.insert(*blob, BlobRec { text: text.clone(), family: *family, wk: *wk, key_kind: *kind, key_raw: vec![], secret: vec![0xde, 0xad], by_reference: false });
+                self.stats.bump("fault:byzantine-blob");
+            }
             Step::Offer { text, faults, reader, artifact, expect, why } => crate::textcheck::offer(self, text, faults, *reader, *artifact, *expect, why),
             Step::Serde { text, reader, artifact } => crate::textcheck::serde_check(self, text, *reader, *artifact),
             Step::Threads { spec } => crate::sched::run_threads(self, spec),
@@ -1053,7 +1068,7 @@ impl<'p> World<'p> {
             Out::Ok((redisplay, _)) => {
                 let same = *redisplay == d.text || (redisplay.matches('.').count() == 2 && d.text == format!("{redisplay}."));
                 if !same {
-                    self.violate("C09", "noncanonical-accepted", bk, &format!("parse-{}", purpose.name()), &fclass, format!("parser accepted {:?} but re-serialises it as {:?}", truncate(&d.text, 100), truncate(redisplay, 100)));
+                    self.violate("C09", "noncanonical-base64-accepted", bk, &format!("parse-{}", purpose.name()), &fclass, format!("parser accepted {:?} but re-serialises it as {:?}", truncate(&d.text, 100), truncate(redisplay, 100)));
                 }
             }
             Out::Panic(p) => self.violate("C04", "panic", bk, &format!("parse-token-{}", purpose.name()), &fclass, format!("token parser panicked: {p}")),
@@ -1508,6 +1523,24 @@ impl<'p> World<'p> {
                     let hdr = format!("k{}.{}.", bk.family(), match rec.kind { Kind::Local => "lid", Kind::Public | Kind::PkePublic => "pid", _ => "sid" });
                     if !s.starts_with(&hdr) || faults::unb64(&s[hdr.len()..]).as_deref() != Some(&bytes[..]) {
                         self.violate("C13", "id-text-form", bk, &format!("id-{}", rec.kind.name()), "", format!("id text {s} is not {hdr}<b64url(33 bytes)>"));
+                    }
+                }
+                // domain separation: ids of different kinds (lid / sid / pid) never coincide, not even
+                // for related keys or keys with identical bytes
+                if let Out::Ok(raw) = be.key_raw(rec.kind, &h) {
+                    let idk = match rec.kind { Kind::Local => Kind::Local, Kind::Public | Kind::PkePublic => Kind::Public, _ => Kind::Secret };
+                    match self.id_bytes.get(&bytes.to_vec()) {
+                        Some((k2, raw2)) if *k2 != idk => {
+                            let k2 = *k2;
+                            self.violate("C13", "ids-not-domain-separated", bk, &format!("id-{}", rec.kind.name()), "", format!("a {} id equals a {} id", idk.name(), k2.name()));
+                        }
+                        Some((_, raw2)) if *raw2 != raw => {
+                            self.violate("C13", "id-collision", bk, &format!("id-{}", rec.kind.name()), "", "two different keys of the same kind have the same id".into());
+                        }
+                        Some(_) => {}
+                        None => {
+                            self.id_bytes.insert(bytes.to_vec(), (idk, raw));
+                        }
                     }
                 }
                 // agreement across nodes / restarts / clones: the directory is keyed by id
